@@ -148,3 +148,36 @@ def use_site(c, op, flavour, domain):
     c.check(looked == [want], "use site: looked up the blob's / the caller's domain once")
     c.check(asked == ["dc7.child.corp.test"], "use site: GetKey sent to the looked-up target")
     return True
+
+
+@harness(P, per_job=True, params=[dict(domain=d, exc=e) for d in ("domain.test", None) for e in ("NXDOMAIN", "NoAnswer", "LifetimeTimeout")], raises=(Exception,),
+         bounds="the resolver fails the one query (NXDOMAIN / NoAnswer / timeout), for a given domain and for none: the lookup fails too, after exactly one query for the prescribed name "
+         "(no other name is tried in its place); sync and async", must_reach=("failed lookup: exactly the prescribed query",))
+def query_failure(c, domain, exc):
+    import dns.exception
+
+    seen = []
+    err = {"NXDOMAIN": dns.resolver.NXDOMAIN, "NoAnswer": dns.resolver.NoAnswer, "LifetimeTimeout": getattr(dns.resolver, "LifetimeTimeout", dns.exception.Timeout)}[exc]
+
+    def resolve(qname, rdtype, *a, **kw):
+        seen.append(qname)
+        raise err()
+
+    async def aresolve(qname, rdtype, *a, **kw):
+        seen.append(qname)
+        raise err()
+
+    c.stubs([(dns.resolver.resolve, resolve), (dns.asyncresolver.resolve, aresolve)])
+    want = "_ldap._tcp.dc._msdcs" + (f".{domain}" if domain else "")
+    outcomes = []
+    for fl in ("sync", "async"):
+        try:
+            if fl == "sync":
+                c.call(_dns.lookup_dc, domain)
+            else:
+                c.call_async(_dns.async_lookup_dc, domain)
+            outcomes.append("returned")
+        except Exception as e:
+            outcomes.append(type(e).__name__)
+    c.check(seen == [want, want] and outcomes == [err.__name__, err.__name__], "failed lookup: exactly the prescribed query")
+    return True
